@@ -310,6 +310,9 @@ def pick_start(rng, base_s, tf_s=None, mode=None):
     exactly on / just after / just before a bucket edge of tf."""
     day = rng.randint(0, 360)
     start = T2023 + day * 86400 + rng.randint(0, 86399)
+    if rng.random() < 0.04:
+        # history from before the epoch (1960s data): bucket indices are negative there
+        start -= 60 * 365 * 86400
     start -= start % base_s
     if tf_s:
         mode = mode or rng.choice(("any", "on_edge", "after_edge", "before_edge"))
